@@ -195,6 +195,15 @@ def runMerge (st : MergeSt) : List MStep → MergeSt × List ServerMsg
   | .child i m :: rest =>
     ((runMerge (st.child i m).1 rest).1, outOf (st.child i m).2 ++ (runMerge (st.child i m).1 rest).2)
 
+/-- the four client-side bookkeeping steps: each touches ONE table (an EVENT the OK table, a REQ and a CLOSE the
+    subscription table, a COUNT the count table) — in particular a CLOSE never touches a pending COUNT -/
+def mergeRecvActual : List String := [Gen.recvEventBody, Gen.recvReqBody, Gen.recvCloseBody, Gen.recvCountBody]
+def mergeRecvExpected : List String :=
+  ["{ s := <-ss.okStat defer func() { ss.okStat <- s }() s.TrySetEventID(msg.Event.ID) return msg }",
+   "{ s := <-ss.reqStat defer func() { ss.reqStat <- s }() s.SetSubID(msg.SubscriptionID, msg.ReqFilters) return msg }",
+   "{ s := <-ss.reqStat defer func() { ss.reqStat <- s }() s.ClearSubID(msg.SubscriptionID) return msg }",
+   "{ s := <-ss.countStat defer func() { ss.countStat <- s }() s.SetSubID(msg.SubscriptionID) return msg }"]
+
 def mergeActualSource : List String := [Gen.okJoin, Gen.okJoinEach, Gen.reqAllEoseExpr, Gen.evCmp, Gen.cntMax, Gen.okAppend, Gen.cntAppend, Gen.cntMaxOf]
 def mergeExpectedSource : List String :=
   ["NewServerOKMsg(msgs[0].EventID, msgs[0].Accepted, \"\", b.String())", "b.WriteString(msg.Message())",
